@@ -1,0 +1,13 @@
+//go:build verif
+
+package statecache
+
+// VerifYield, when set, is called before each access to the shared cache maps
+// in StateCache.Get and StateCache.commit (verification harness only).
+var VerifYield func(point, key, block string)
+
+func vyield(point, key, block string) {
+	if f := VerifYield; f != nil {
+		f(point, key, block)
+	}
+}
